@@ -97,6 +97,22 @@ fn glue_utc(n: &NaiveDateTime, dt: &DateTime<Local>, off: i32) -> Option<String>
     chk("DateTime<Local>::fixed_offset", f2.offset().local_minus_utc(), f2.naive_utc(), off);
     let u1: DateTime<Utc> = (*dt).into();
     chk("From<DateTime<Local>> for DateTime<Utc>", 0, u1.naive_utc(), 0);
+    // the system clock type, both ways
+    let secs = n.and_utc().timestamp();
+    let nanos = n.and_utc().timestamp_subsec_nanos();
+    let st = if secs >= 0 {
+        std::time::UNIX_EPOCH.checked_add(std::time::Duration::new(secs as u64, nanos))
+    } else {
+        std::time::UNIX_EPOCH.checked_sub(std::time::Duration::new(secs.unsigned_abs(), 0)).and_then(|t| t.checked_add(std::time::Duration::new(0, nanos)))
+    };
+    if let (Some(st), true) = (st, nanos < 1_000_000_000) {
+        let l4: DateTime<Local> = st.into();
+        chk("From<SystemTime> for DateTime<Local>", l4.offset().local_minus_utc(), l4.naive_utc(), off);
+        let back: std::time::SystemTime = (*dt).into();
+        if back != st {
+            chk("From<DateTime<Local>> for SystemTime (instant changed)", off, *n - chrono::TimeDelta::seconds(1), off);
+        }
+    }
     // the (deprecated) date-level entry point is the offset at UTC midnight of that date
     let mid = n.date().and_time(NaiveTime::MIN);
     let (od, om) = (Local.offset_from_utc_date(&n.date()).local_minus_utc(), Local.offset_from_utc_datetime(&mid).local_minus_utc());
